@@ -36,7 +36,7 @@ LEVEL_NOTE = (
     "type, message contained), futures still running in the pool after the raise (dask does not cancel them; they "
     "are not dependents). rerun_exceptions_locally=True is validated by the API-level runs only.")
 TECHNIQUE = "Lean 4 invariant proof over an adversarial state machine with failure injection + differential correspondence"
-ASSUMPTIONS = ["a task either returns its value or raises, deterministically per task (`fails`)", "StartOK (see C01)"]
+ASSUMPTIONS = ["a task either returns its value or raises, deterministically per task (`fails`)"]
 TRUSTED = ["concurrent.futures / multiprocessing deliver completions and exceptions"]
 SIG_UNPICKLABLE = "mp:unpicklable-task-exception:replaced-by-pickling-error"
 
